@@ -326,6 +326,8 @@ TSched ==
   /\ l' = l + 1
   /\ Chk("HARNESS", "PoolHandsBackLastBuffer", Ev.pooltest)
   /\ Chk("C13", "NonInterference", NonInterferenceOn(Ev.out))
+  \* in the reference process every instance ran alone twice, the second time after all the others: same output both times
+  /\ Chk("C13", "SoloRunRepeatsAfterOtherInstances", Ev.unstable = <<>>)
   /\ UNCHANGED <<caseId, schema, cols, maxPage, codecN, recs, batches, snk, wc, faultK, rowsTab, clean>>
 TStress ==
   /\ More /\ Ev.ev = "Stress"
